@@ -6,6 +6,10 @@ from .core import (Ctx, LibFailure, HarnessError, case_hash, dump_case, derive_s
                    open_findings_for, _jsonable)
 
 
+class ViolationFound(Exception):
+    """An unlisted violation was found in the current case (drives Hypothesis' shrinking)."""
+
+
 class Stats:
     def __init__(self, prop, open_findings):
         self.prop = prop
@@ -28,7 +32,7 @@ class Stats:
         self.buckets = {}
 
     def run_case(self, case, exhaustive=False):
-        """Run one case. Raises AssertionError on an unlisted violation."""
+        """Run one case. Raises ViolationFound on an unlisted violation."""
         if self.first_fail_time is not None and time.time() - self.first_fail_time > self.shrink_seconds:
             self.stop_shrinking = True
         if self.stop_shrinking:
@@ -66,7 +70,7 @@ class Stats:
             # the shrink phase is bounded (calls and seconds): this only limits how small the replay gets
             if self.fail_calls > self.shrink_limit or time.time() - self.first_fail_time > self.shrink_seconds:
                 self.stop_shrinking = True
-            raise AssertionError(unknown[0].kind + ': ' + unknown[0].msg)
+            raise ViolationFound(unknown[0].kind + ': ' + unknown[0].msg)
         if self.failure is not None:
             return  # shrinking phase: do not pollute statistics
         for l in ctx.labels:
@@ -100,7 +104,7 @@ def run_shard(prop_id, tier, seed, shard, nshards, outfile):
                 try:
                     for case in it:
                         stats.run_case(case, exhaustive=True)
-                except AssertionError:
+                except ViolationFound:
                     exhaustive_done = False
         # 2. generated part
         budget = prop.budget(tier)
@@ -123,10 +127,12 @@ def run_shard(prop_id, tier, seed, shard, nshards, outfile):
 
             try:
                 test()
-            except AssertionError:
+            except ViolationFound:
                 pass
             except BaseException as e:
-                if stats.failure is None:
+                # anything else (incl. AssertionError from harness self-checks) is a harness error unless a violation
+                # was already recorded and Hypothesis merely complains about our shrink cut-off (Flaky etc.)
+                if stats.failure is None or isinstance(e, (AssertionError, HarnessError)):
                     raise
                 # Flaky etc. raised by hypothesis after our shrink cut-off: the stored failure stands.
         out.update({
